@@ -780,3 +780,55 @@ Proof.
   - exact Logic.I.
   - destruct (nth_error (s_logs (run ops)) osrc) as [l|]; exact Logic.I.
 Qed.
+
+(* ---- append-only along these histories: an operation other than a bounded merge never removes or
+   replaces an entry of any replica ---- *)
+Theorem ostep_entries_monotone s o r l :
+  osinv s -> owf_step s o ->
+  (match o with OJoin _ _ size => size < 0 | _ => True end) ->
+  nth_error (s_logs s) r = Some l ->
+  exists l', nth_error (s_logs (fst (step s o))) r = Some l' /\
+             (forall k v, In (k, v) (l_entries l) -> In (k, v) (l_entries l')) /\
+             (length (l_entries l) <= length (l_entries l'))%nat.
+Proof.
+  intros [UO IL] W Hb L.
+  assert (Hlen : (r < length (s_logs s))%nat) by (apply nth_error_Some; congruence).
+  assert (Same : nth_error (s_logs (fst (step s o))) r = Some l ->
+          exists l', nth_error (s_logs (fst (step s o))) r = Some l' /\
+             (forall k v, In (k, v) (l_entries l) -> In (k, v) (l_entries l')) /\
+             (length (l_entries l) <= length (l_entries l'))%nat).
+  { intros H. exists l. split; [exact H|]. split; [auto|lia]. }
+  destruct o as [id key sf deny t0|r0 payload pc h|r0 src size|r0 key|r0 mh|r0 io|r0 payload pc h|r0|osrc okeep ohh oid okey osf odeny].
+  - apply Same. rewrite step_other_untouched; auto.
+  - destruct (Nat.eq_dec r0 r) as [->|Hne]; [|apply Same; rewrite step_other_untouched; auto].
+    cbn [step]. rewrite L. pose proof (IL r l L) as Il. pose proof (append_entry_lift _ l payload pc h Il) as EL. unfold append.
+    destruct (append_entry l payload pc h) as [e|] eqn:AE; cbn [fst].
+    + assert (HC : forall a, In a (s_univ s) -> e_hash a = h -> a = e) by (intros; eapply W; eauto).
+      pose proof (pentries_after _ (lift l) payload pc h e Il EL HC) as PA. change (l_entries (lift l)) with (l_entries l) in PA.
+      destruct (allowed l e); cbn [fst s_logs]; rewrite nth_error_set_nth, L, Nat.eqb_refl; eexists; (split; [reflexivity|]); cbn [l_entries].
+      * rewrite PA. split; [intros k v H; apply in_or_app; now left|rewrite app_length; lia].
+      * split; [auto|lia].
+    + cbn [s_logs]. rewrite nth_error_set_nth, L, Nat.eqb_refl. eexists. split; [reflexivity|]. split; [auto|lia].
+  - destruct (Nat.eq_dec r0 r) as [->|Hne]; [|apply Same; rewrite step_other_untouched; auto].
+    cbn [step]. rewrite L. destruct (nth_error (s_logs s) src) as [o|] eqn:O; [|exists l; split; [exact L|split; [auto|lia]]].
+    destruct (join l o (Nat.eqb r src) size) as [l' out] eqn:J. cbn [fst s_logs]. rewrite nth_error_set_nth, L, Nat.eqb_refl.
+    exists l'. split; [reflexivity|].
+    destruct (join_lift_left l o (Nat.eqb r src) size l' out J) as [t' JT].
+    pose proof (join_keeps_held_entries (s_univ s) (lift l) o (Nat.eqb r src) size _ out (IL r l L) Hb JT) as Sub.
+    change (l_entries (lift l)) with (l_entries l) in Sub. change (l_entries (set_time l' t')) with (l_entries l') in Sub.
+    split; [exact Sub|].
+    apply NoDup_incl_length.
+    + apply NoDup_map_inv with (f := fst). apply (pi_nodup _ _ (IL r l L)).
+    + intros [k v] Hin. now apply Sub.
+  - destruct (Nat.eq_dec r0 r) as [->|Hne]; [|apply Same; rewrite step_other_untouched; auto].
+    cbn [step]. rewrite L. cbn [fst s_logs]. rewrite nth_error_set_nth, L, Nat.eqb_refl.
+    eexists. split; [reflexivity|]. split; [auto|cbn; lia].
+  - apply Same. rewrite step_other_untouched; auto.
+  - apply Same. rewrite step_other_untouched; auto.
+  - destruct (Nat.eq_dec r0 r) as [->|Hne]; [|apply Same; rewrite step_other_untouched; auto].
+    cbn [step]. rewrite L. destruct (append_entry l payload pc h) as [e|]; cbn [fst]; [|exists l; split; [exact L|split; [auto|lia]]].
+    cbn [s_logs]. rewrite nth_error_set_nth, L, Nat.eqb_refl. eexists. split; [reflexivity|].
+    split; [auto|cbn; lia].
+  - apply Same. rewrite step_other_untouched; auto.
+  - apply Same. rewrite step_other_untouched; auto.
+Qed.
